@@ -325,8 +325,13 @@ func (w *World) checkCloseOracles(v *Node) {
 					continue // read only after the caller had given up: nobody to answer
 				}
 				w.probe("C07.request-dropped-without-reply")
-				w.violate("C07", "request-dropped", "node %s read call request %s (id %d, link%d) at #%d, kept the connection up past the caller's deadline (%v) and never wrote a response or an error frame for it: the caller waited its full timeout (Close called #%d, returned #%d)",
-					v.Name, tag, tf.F.ID, l.ID, tf.REv, rec.Deadline, v.closeCalledEv, v.closeReturnedEv)
+				why := ""
+				if v.ErrOnClosedConn[tf.F.ID] > 0 {
+					// attribution: the library itself gave up on the error frame
+					why = "; the node logged 'Could not send error frame on closed connection' for this id: its connection object was already in the closed state while its writer was still draining queued frames to a slow reader"
+				}
+				w.violate("C07", "request-dropped", "node %s read call request %s (id %d, link%d) at #%d, kept the connection up past the caller's deadline (%v) and never wrote a response or an error frame for it: the caller waited its full timeout (Close called #%d, returned #%d)%s",
+					v.Name, tag, tf.F.ID, l.ID, tf.REv, rec.Deadline, v.closeCalledEv, v.closeReturnedEv, why)
 			}
 		}
 	}
